@@ -366,7 +366,7 @@ pub fn run_parts(which: Which, w: &[u8], parts: &[usize]) -> Run {
     for p in parts {
         let chunk = &w[off..off + p];
         off += p;
-        feed(&mut dec, chunk, &mut items, &mut problems);
+        feed(&mut dec, chunk, off, &mut items, &mut problems);
     }
     debug_assert_eq!(off, w.len());
     // exhaustion: nothing more is available, and asking again changes nothing
@@ -389,10 +389,11 @@ pub fn run_parts(which: Which, w: &[u8], parts: &[usize]) -> Run {
     }
 }
 
-fn feed(dec: &mut AnyDec, chunk: &[u8], items: &mut Vec<Out>, problems: &mut Vec<String>) {
+fn feed(dec: &mut AnyDec, chunk: &[u8], seen: usize, items: &mut Vec<Out>, problems: &mut Vec<String>) {
     let mut cur = Cursor::new(chunk);
-    // every call either yields an item or consumes the whole read; items are bounded by bytes seen
-    let budget = 2 * (chunk.len() + 64) + 8;
+    // every call either yields an item or consumes the whole read; items are bounded by the bytes seen so far
+    // (a sequence that dies late is re-read from its start: all of its bytes may come out as items now)
+    let budget = 2 * (seen + 64) + 8;
     let mut calls = 0;
     loop {
         calls += 1;
@@ -624,7 +625,11 @@ pub fn squash(s: &str) -> String {
         }
     }
     if o.len() > 80 {
-        o.truncate(80);
+        let mut end = 80;
+        while !o.is_char_boundary(end) {
+            end -= 1;
+        }
+        o.truncate(end);
     }
     o
 }
